@@ -8,7 +8,9 @@ import (
 	"go/constant"
 	"go/token"
 	"go/types"
+	"os"
 	"strings"
+	"time"
 	"unicode/utf8"
 
 	"golang.org/x/tools/go/ssa"
@@ -92,6 +94,15 @@ type W struct {
 	guard     *Term          // non-nil while executing a speculated region
 	noFork    bool
 	inHook    bool
+	allowInit bool
+	pcSet     map[int32]struct{}
+	obligs    []oblig
+	nextOb    int
+	vb        map[int32]rng
+	rmemo     map[int32]rng
+	bmemo     map[int32]tri
+	pviols    []pendingViol
+	narrowMerge bool
 	noMergeRoot bool
 	minfo     map[*ssa.Function]*fnMergeInfo
 	pureOrder map[*ssa.Function][]*ssa.BasicBlock
@@ -155,10 +166,150 @@ func (w *W) addPC(c *Term) {
 	}
 	w.pc = append(w.pc, c)
 	w.symbolicPath = true
+	w.learn(c)
+	w.absAssume(c, true)
+}
+
+// learn records facts that are syntactically implied by a new path-condition
+// conjunct, so that identical (or trivially weaker) run-time checks need no
+// solver call. Purely an optimisation: everything recorded is implied by the
+// path condition.
+func (w *W) learn(c *Term) {
+	if _, ok := w.pcSet[c.ID]; ok {
+		return
+	}
+	w.pcSet[c.ID] = struct{}{}
+	ts := w.ts
+	switch c.Op {
+	case OpAnd:
+		w.learn(c.A[0])
+		w.learn(c.A[1])
+	case OpSlt: // a <s b
+		a, b := c.A[0], c.A[1]
+		if a.IsConst() && a.Int() >= 0 {
+			w.learn(ts.Ult(a, b))
+			w.learn(ts.Ule(a, b))
+			w.learn(ts.Sle(a, b))
+		}
+	case OpSle:
+		a, b := c.A[0], c.A[1]
+		if a.IsConst() && a.Int() >= 0 {
+			w.learn(ts.Ule(a, b))
+		}
+	case OpUlt:
+		w.learn(ts.Ule(c.A[0], c.A[1]))
+	case OpNot:
+		x := c.A[0]
+		switch x.Op {
+		case OpSlt: // !(a <s b)  =  b <=s a
+			a, b := x.A[0], x.A[1]
+			w.learn(ts.Sle(b, a))
+		case OpSle: // !(a <=s b) = b <s a
+			a, b := x.A[0], x.A[1]
+			w.learn(ts.Slt(b, a))
+		case OpUlt:
+			w.learn(ts.Ule(x.A[1], x.A[0]))
+		case OpUle:
+			w.learn(ts.Ult(x.A[1], x.A[0]))
+		case OpOr: // !(a || b) = !a && !b
+			w.learn(ts.Not(x.A[0]))
+			w.learn(ts.Not(x.A[1]))
+		}
+	}
+}
+
+// known reports whether c is syntactically implied by the path condition.
+func (w *W) known(c *Term) bool {
+	if c.IsTrue() {
+		return true
+	}
+	if _, ok := w.pcSet[c.ID]; ok {
+		return true
+	}
+	if c.Op == OpAnd {
+		return w.known(c.A[0]) && w.known(c.A[1])
+	}
+	if c.Op == OpOr {
+		if w.known(c.A[0]) || w.known(c.A[1]) {
+			return true
+		}
+	}
+	if w.decide(c) == triTrue {
+		if w.e.opts.CheckAbstract {
+			w.crossCheck(c, true)
+		}
+		return true
+	}
+	if c.Op == OpOr {
+		// (!g || x): decide x under the assumption g
+		for i := 0; i < 2; i++ {
+			g, x := w.ts.Not(c.A[i]), c.A[1-i]
+			if w.decideUnder(g, x) {
+				if w.e.opts.CheckAbstract {
+					w.crossCheck(c, true)
+				}
+				return true
+			}
+		}
+	}
+	return false
+}
+
+// decideUnder: do the intervals decide x to be true once g is assumed?
+func (w *W) decideUnder(g, x *Term) bool {
+	saved := make(map[int32]rng, len(w.vb))
+	for k, v := range w.vb {
+		saved[k] = v
+	}
+	w.absAssume(g, true)
+	w.absInvalidate()
+	r := w.decide(x)
+	if r != triTrue && x.Op == OpOr {
+		// nested implication
+		for i := 0; i < 2 && r != triTrue; i++ {
+			w.absAssume(w.ts.Not(x.A[i]), true)
+			w.absInvalidate()
+			if w.decide(x.A[1-i]) == triTrue {
+				r = triTrue
+			}
+		}
+	}
+	w.vb = saved
+	w.absInvalidate()
+	return r == triTrue
+}
+
+// crossCheck verifies an interval-domain verdict against the solver (selftest mode).
+func (w *W) crossCheck(c *Term, verdict bool) {
+	q := c
+	if verdict {
+		q = w.ts.Not(c)
+	}
+	// without the not-asserted obligations the context is weaker than the
+	// path condition, so include them explicitly
+	w.syncPC()
+	lits := []*Term{q}
+	for _, o := range w.obligs {
+		lits = append(lits, w.pc[o.k])
+	}
+	if r := w.sol.Check(lits...); r == Sat {
+		var pcs []string
+		for _, p := range w.pc {
+			pcs = append(pcs, p.String())
+		}
+		panic(fmt.Sprintf("interval domain unsound: decided %v for %s\nvb=%v\npc=\n%s", verdict, c, w.vb, strings.Join(pcs, "\n")))
+	}
+	w.st.AbsCrossChecks++
 }
 
 func (w *W) syncPC() {
+	// obligations are not asserted: if valid they are implied by the rest, and
+	// if not the violation is reported from flush
 	for ; w.asserted < len(w.pc); w.asserted++ {
+		if w.nextOb < len(w.obligs) && w.obligs[w.nextOb].k == w.asserted {
+			w.nextOb++
+			continue
+		}
 		w.sol.Assert(w.pc[w.asserted])
 	}
 }
@@ -188,7 +339,15 @@ func (w *W) fork(conds []*Term, exhaustive bool, what string) int {
 		k := int(w.prefix[w.pos])
 		w.pos++
 		if k >= len(conds) {
-			panic(fmt.Sprintf("replay divergence at decision %d (%s): %d >= %d", w.pos-1, what, k, len(conds)))
+			var cs []string
+			for _, c := range conds {
+				if c == nil {
+					cs = append(cs, "nil")
+				} else {
+					cs = append(cs, c.String())
+				}
+			}
+			panic(fmt.Sprintf("replay divergence at decision %d (%s): %d >= %d; prefix=%v conds=%v dbg=%v", w.pos-1, what, k, len(conds), w.prefix, cs, w.e.dbgFor(w.prefix[:w.pos])))
 		}
 		w.decisions = append(w.decisions, int32(k))
 		w.addPC(conds[k])
@@ -202,6 +361,20 @@ func (w *W) fork(conds []*Term, exhaustive bool, what string) int {
 			continue
 		}
 		if c.IsFalse() {
+			continue
+		}
+		switch w.decide(c) {
+		case triFalse:
+			if w.e.opts.CheckAbstract {
+				w.crossCheck(c, false)
+			}
+			w.st.PrunedAbs++
+			continue
+		case triTrue:
+			if w.e.opts.CheckAbstract {
+				w.crossCheck(c, true)
+			}
+			feas = append(feas, i)
 			continue
 		}
 		if exhaustive && i == len(conds)-1 && len(feas) == 0 {
@@ -221,6 +394,17 @@ func (w *W) fork(conds []*Term, exhaustive bool, what string) int {
 		np := make([]int32, len(w.decisions)+1)
 		copy(np, w.decisions)
 		np[len(w.decisions)] = int32(k)
+		if os.Getenv("GOSYM_DEBUG_FORK") != "" {
+			var cs []string
+			for _, c := range conds {
+				if c == nil {
+					cs = append(cs, "nil")
+				} else {
+					cs = append(cs, c.String())
+				}
+			}
+			w.e.dbgSet(np, fmt.Sprintf("%s n=%d conds=%v", what, len(conds), cs))
+		}
 		w.e.queue.push(np)
 	}
 	k := feas[0]
@@ -254,7 +438,10 @@ func (w *W) concretizeInt(t *Term, lo, hi int64, what string) int64 {
 	return lo + int64(k)
 }
 
-// require states a condition whose failure is a Go run-time panic.
+// require states a condition whose failure is a Go run-time panic. The
+// condition joins the path condition at once; whether the path condition up
+// to here really implies it is decided at the end of the path, in one batch
+// query together with the path's other obligations (flush).
 func (w *W) require(cond *Term, what string, pos token.Pos) {
 	if w.guard != nil {
 		cond = w.ts.Implies(w.guard, cond)
@@ -267,34 +454,131 @@ func (w *W) require(cond *Term, what string, pos token.Pos) {
 		w.violation("panic", what+w.posStr(pos), nil)
 		panic(pathEnd{endOK, "panic: " + what})
 	}
-	w.st.Obligations++
-	neg := w.ts.Not(cond)
-	switch w.checkSat(neg) {
-	case Unsat:
-		if w.confirmUnsat(neg) {
-			w.st.Discharged++
-		}
-	case Sat:
-		w.violation("panic", what+w.posStr(pos), neg)
-	default:
-		w.st.Inconclusive++
-		w.note("inconclusive panic check: " + what + w.posStr(pos))
+	if w.known(cond) {
+		w.st.ImpliedChecks++
+		return
 	}
-	w.addPC(cond)
+	if w.e.opts.Profile {
+		w.e.prof(what + w.posStr(pos) + "  " + cond.String())
+	}
+	w.obligation(cond, "panic", what+w.posStr(pos))
 }
 
-// confirmUnsat re-asks a deciding query to the second (and third) solver.
-func (w *W) confirmUnsat(c *Term) bool {
+type oblig struct {
+	k    int // index of the condition in w.pc
+	kind string
+	msg  string
+}
+
+type pendingViol struct {
+	k     int // number of path-condition conjuncts in force
+	kind  string
+	msg   string
+	extra *Term
+}
+
+func (w *W) obligation(cond *Term, kind, msg string) {
+	w.st.Obligations++
+	w.obligs = append(w.obligs, oblig{len(w.pc), kind, msg})
+	w.pc = append(w.pc, cond)
+	w.symbolicPath = true
+	w.learn(cond)
+	w.absAssume(cond, true)
+}
+
+// violation records a definite violation candidate under the current path
+// condition (plus extra, if given); its feasibility and model are determined
+// by flush at the end of the path.
+func (w *W) violation(kind, msg string, extra *Term) {
+	if w.guard != nil {
+		panic(mergeAbort{"violation under guard"})
+	}
+	w.pviols = append(w.pviols, pendingViol{len(w.pc), kind, msg, extra})
+}
+
+// flush decides the path's obligations and violation candidates. Called with
+// a fresh solver scope (the incrementally asserted path condition popped).
+func (w *W) flush() {
+	if len(w.obligs) == 0 && len(w.pviols) == 0 {
+		return
+	}
+	ts := w.ts
+	// prefix[i] = pc[0] && ... && pc[i-1]
+	prefix := make([]*Term, len(w.pc)+1)
+	prefix[0] = ts.tt
+	for i, c := range w.pc {
+		prefix[i+1] = ts.And(prefix[i], c)
+	}
+	w.sol.Push()
+	defer w.sol.Pop()
+	if len(w.obligs) > 0 {
+		d := ts.ff
+		for _, o := range w.obligs {
+			d = ts.Or(d, ts.And(prefix[o.k], ts.Not(w.pc[o.k])))
+		}
+		w.st.BatchQueries++
+		t0 := time.Now()
+		r := w.sol.Check(d)
+		w.st.BatchNs += int64(time.Since(t0))
+		if r == Unsat {
+			w.confirm(d, len(w.obligs))
+		} else {
+			// locate the failing obligation(s)
+			for _, o := range w.obligs {
+				f := ts.And(prefix[o.k], ts.Not(w.pc[o.k]))
+				w.st.BatchQueries++
+				switch w.sol.Check(f) {
+				case Unsat:
+					w.confirm(f, 1)
+				case Sat:
+					w.recordViolation(o.kind, o.msg, f)
+				default:
+					w.st.Inconclusive++
+					w.note("inconclusive " + o.kind + " check: " + o.msg)
+				}
+				if w.e.stopped() {
+					break
+				}
+			}
+		}
+	}
+	for _, pv := range w.pviols {
+		f := prefix[pv.k]
+		if pv.extra != nil {
+			f = ts.And(f, pv.extra)
+		}
+		w.st.BatchQueries++
+		switch w.sol.Check(f) {
+		case Sat:
+			w.recordViolation(pv.kind, pv.msg, f)
+		case Unknown:
+			w.st.Inconclusive++
+			w.note("violation candidate with unknown feasibility: " + pv.msg)
+		}
+	}
+}
+
+// confirm re-asks a deciding unsat query to the confirming solver(s).
+func (w *W) confirm(f *Term, n int) {
 	ok := true
-	for _, s := range []*Solver{w.sol2, w.sol3} {
+	// deterministic sampling of the paths whose deciding queries are re-asked
+	h := uint64(1469598103934665603)
+	for _, d := range w.decisions {
+		h = (h ^ uint64(d+1)) * 1099511628211
+	}
+	for i, s := range []*Solver{w.sol2, w.sol3} {
 		if s == nil {
 			continue
 		}
-		s.Push()
-		for _, p := range w.pc {
-			s.Assert(p)
+		every := uint64(w.e.opts.ConfirmEvery)
+		if i == 1 {
+			every *= 4
 		}
-		r := s.Check(c)
+		if every > 1 && (h>>7)%every != 0 {
+			continue
+		}
+		s.Push()
+		r := s.Check(f)
 		s.Pop()
 		w.st.ConfirmQueries++
 		switch r {
@@ -304,9 +588,14 @@ func (w *W) confirmUnsat(c *Term) bool {
 			ok = false
 		case Unknown:
 			w.st.ConfirmUnknown++
+			w.st.Inconclusive += int64(n)
+			w.note("confirming solver " + s.name + " returned unknown on a deciding query")
+			ok = false
 		}
 	}
-	return ok
+	if ok {
+		w.st.Discharged += int64(n)
+	}
 }
 
 func (w *W) note(s string) {
@@ -372,13 +661,13 @@ func (w *W) load(p Ptr, pos token.Pos) Value {
 		if !isArr {
 			panic("symbolic pointer into non-array")
 		}
-		return w.selectSym(arr, p.Sym)
+		return w.selectSym(arr, p.Sym, pos)
 	}
 	return copyVal(*cell)
 }
 
 // selectSym builds ite(idx==0, a[0], ite(idx==1, a[1], ...)).
-func (w *W) selectSym(arr Array, idx *Term) Value {
+func (w *W) selectSym(arr Array, idx *Term, pos token.Pos) Value {
 	n := len(arr)
 	if n == 0 {
 		unsupp("symbolic index into empty array")
@@ -388,7 +677,7 @@ func (w *W) selectSym(arr Array, idx *Term) Value {
 		c := w.ts.Eq(idx, w.ts.BV(idx.W, uint64(k)))
 		m, ok := w.mergeVal(c, arr[k], res)
 		if !ok {
-			unsupp("symbolic index into array of unmergeable elements")
+			unsupp("symbolic index into array of unmergeable elements (%T)%s", arr[k], w.posStr(pos))
 		}
 		res = m
 	}
@@ -436,12 +725,16 @@ func (w *W) ensureInit(pkg *ssa.Package) {
 		return
 	}
 	w.initDone[pkg] = true
+	if os.Getenv("GOSYM_DEBUG_INIT") != "" {
+		fmt.Fprintln(os.Stderr, "init of", pkg.Pkg.Path())
+	}
 	initFn := pkg.Func("init")
 	if initFn == nil || initFn.Blocks == nil {
 		return
 	}
 	w.inInit++
 	defer func() { w.inInit-- }()
+	w.allowInit = true
 	w.callFunc(initFn, nil, nil, token.NoPos)
 }
 
@@ -550,6 +843,13 @@ func (w *W) get(fr *frame, v ssa.Value) Value {
 const maxDepth = 200
 
 func (w *W) callFunc(fn *ssa.Function, args []Value, env []Value, pos token.Pos) Value {
+	if fn.Synthetic == "package initializer" {
+		// dependencies are initialised lazily, on first access to one of their globals
+		if !w.allowInit {
+			return nil
+		}
+		w.allowInit = false
+	}
 	if ic := w.intrinsicFor(fn); ic != nil {
 		return ic(w, fn, args, pos)
 	}
@@ -930,7 +1230,7 @@ func (w *W) indexOp(fr *frame, x *ssa.Index) Value {
 		if idx.IsConst() {
 			return copyVal(base[idx.Val])
 		}
-		return w.selectSym(base, idx)
+		return w.selectSym(base, idx, x.Pos())
 	case Str:
 		w.require(w.ts.Ult(idx, base.Len), "index out of range (string)", x.Pos())
 		return w.strByte(base, idx)
